@@ -50,6 +50,9 @@ UNUSED_KEYS = ["f1", "page up"]
 PREF_KEYS = ["up", "down", "left", "a", "delete", "f1"]
 NUM_KEYS = ["0", "5", "-", ".", ",", "a", "g", "left", "right", "home", "end", "backspace", "delete", "up", "down", "f1"]
 DIGITS36 = "0123456789ABCDEFGHIJKLMNOPQRSTUVWXYZ"
+# reporting caps (raise via the environment when triaging, to see every failure of a run)
+CAP_PER_CLASS = int(os.environ.get("C10_CAP_PER_CLASS", "3"))
+CAP_REPORT = int(os.environ.get("C10_CAP_REPORT", "20"))
 
 
 # ----------------------------------------------------------------------------------------------
@@ -455,7 +458,7 @@ class Tally:
             cls = d.get("class", d["why"][:40])
             bucket = fl.setdefault(cls, [0, []])
             bucket[0] += 1
-            if len(bucket[1]) < 3:
+            if len(bucket[1]) < CAP_PER_CLASS:
                 bucket[1].append(d)
 
 
@@ -743,7 +746,7 @@ def _merge(total, t):
         for cls, (n, items) in classes.items():
             b = dst.setdefault(cls, [0, []])
             b[0] += n
-            b[1].extend(items[: 3 - len(b[1])])
+            b[1].extend(items[: max(0, CAP_PER_CLASS - len(b[1]))])
 
 
 def _pool_map(fn, tasks, procs):
@@ -760,9 +763,9 @@ def _result(name, rule, bound, exhaustive, total, clause, t0):
     fails = []
     classes = total.fail.get(clause, {})
     # round-robin over the reason classes, at most 20 reported
-    for k in range(3):
+    for k in range(CAP_PER_CLASS):
         for cls, (n, items) in sorted(classes.items(), key=lambda kv: -kv[1][0]):
-            if k < len(items) and len(fails) < 20:
+            if k < len(items) and len(fails) < CAP_REPORT:
                 fails.append({**items[k], "failures_in_class": n})
     return {
         "name": name,
